@@ -3,6 +3,7 @@ import numpy as np
 import xarray as xr
 
 from dtscalibration.calibration.section_utils import validate_no_overlapping_sections
+from dtscalibration.calibration.section_utils import validate_no_shared_locations
 from dtscalibration.calibration.section_utils import validate_sections_definition
 from dtscalibration.dts_accessor_utils import ufunc_per_section_helper
 from dtscalibration.variance_helpers import check_allclose_acquisitiontime
@@ -114,6 +115,7 @@ def variance_stokes_constant(st, sections, acquisitiontime, reshape_residuals=Tr
     """
     validate_sections_definition(sections=sections)
     validate_no_overlapping_sections(sections=sections)
+    validate_no_shared_locations(st.coords["x"], sections=sections)
     check_allclose_acquisitiontime(acquisitiontime=acquisitiontime)
 
     assert st.dims[0] == "x", "DataArray is transposed"
@@ -274,6 +276,7 @@ def variance_stokes_exponential(
     """
     validate_sections_definition(sections=sections)
     validate_no_overlapping_sections(sections=sections)
+    validate_no_shared_locations(st.coords["x"], sections=sections)
     check_allclose_acquisitiontime(acquisitiontime=acquisitiontime)
 
     assert st.dims[0] == "x", "Stokes are transposed"
@@ -452,6 +455,7 @@ def variance_stokes_linear(
     """
     validate_sections_definition(sections=sections)
     validate_no_overlapping_sections(sections=sections)
+    validate_no_shared_locations(st.coords["x"], sections=sections)
     check_allclose_acquisitiontime(acquisitiontime=acquisitiontime)
 
     assert st.dims[0] == "x", "Stokes are transposed"
